@@ -263,3 +263,27 @@ def same_key_rebuild(fn: FuncInfo, target: ast.AST, value: ast.AST) -> bool:
         key = lp.target.elts[0] if isinstance(lp.target, ast.Tuple) else lp.target
         return isinstance(key, ast.Name) and isinstance(st.targets[0].slice, ast.Name) and st.targets[0].slice.id == key.id
     return False
+
+
+def incoming_element(ctx, fn, name: str) -> bool:
+    """Is ``name`` the loop variable of a loop over a local collection that this same function inserts into a model
+    list (`self.reactions += pruned`)? The checking DictList API rejects an element that is already listed, so such an
+    element is not part of the model while the function works on it: its own references are not model state yet, and
+    no model object refers to it (back-reference invariant)."""
+    import ast as _ast
+
+    from ..program import walk_local as _walk, norm as _norm
+
+    _, defs = ctx.inf.lookup_name(fn, name)
+    colls = set()
+    for lp in _walk(fn.node):
+        if isinstance(lp, _ast.For) and isinstance(lp.target, _ast.Name) and lp.target.id == name and isinstance(lp.iter, _ast.Name):
+            colls.add(lp.iter.id)
+    if not colls:
+        return False
+    for e in ctx.eff.own_effects(fn):
+        if e.kind == "RAW" and e.op == "add" and e.cell in ("Model.reactions", "Model.metabolites", "Model.genes", "Model.groups") and isinstance(e.value, _ast.AST):
+            if isinstance(e.value, _ast.Name) and e.value.id in colls:
+                return True
+    return False
+
